@@ -61,7 +61,7 @@ theorem parseStart_serializeStart (plus : Plus) (a : Annotation) (hc : canon a =
       .ok ({ seq := [], labile := a.labile, static := a.static, isotope := a.isotope, unknown := a.unknown,
              nterm := a.nterm }, rest) := by
   simp only [canon, Bool.and_eq_true] at hc
-  obtain ⟨⟨⟨⟨⟨⟨⟨⟨⟨⟨⟨_, _⟩, hlab⟩, hst⟩, hiso⟩, hunk⟩, hnt⟩, _⟩, _⟩, _⟩, _⟩, _⟩ := hc
+  obtain ⟨⟨⟨⟨⟨⟨⟨⟨⟨⟨_, _⟩, hlab⟩, hst⟩, hiso⟩, hunk⟩, hnt⟩, _⟩, _⟩, _⟩, _⟩ := hc
   rw [serializeStart_eq]
   simp only [List.append_assoc]
   exact parseStart_sections plus a.labile a.static a.isotope a.unknown a.nterm hlab hst hiso hunk hnt rest hrest
@@ -75,7 +75,7 @@ theorem parseMiddle_serializeMiddle (plus : Plus) (a acc : Annotation) (hc : can
     parseMiddle acc none (serializeMiddle plus a ++ tail) =
       parseMiddle { acc with seq := a.seq, internal := a.internal, intervals := a.intervals } none tail := by
   simp only [canon, Bool.and_eq_true] at hc
-  obtain ⟨⟨⟨⟨⟨⟨⟨⟨⟨⟨⟨_, hAA⟩, _⟩, _⟩, _⟩, _⟩, _⟩, hD⟩, hL⟩, _⟩, _⟩, _⟩ := hc
+  obtain ⟨⟨⟨⟨⟨⟨⟨⟨⟨⟨_, hAA⟩, _⟩, _⟩, _⟩, _⟩, _⟩, hD⟩, hL⟩, _⟩, _⟩ := hc
   exact parseMiddle_serializeMiddle' plus a acc hAA hD hL h1 h2 h3 tail htail
 
 /-- `_parse_sequence_end` reads back charge and adducts, up to the end of the input or the `+` / `//` that starts the next
